@@ -305,9 +305,31 @@ def math_sumplus_negative_weight(case: dict, failure: dict) -> bool:
     return False
 
 
+def _minmax_value_became_weight(case: dict, failure: dict) -> bool:
+    """second shape of the same defect: after the math step a variable that a #min/#max aggregate assigns (guards may have been
+    renamed: `Z = #min{..} = Y; Y = X` -> `X = #min{..}`) is the weight of an element of a #sum that did not exist before"""
+    before = {str(b) for b in _body_lits(_before(case, failure))}
+    lits = [l for l in _body_lits(_after(case, failure)) if l.ast_type == ASTType.Literal and l.atom.ast_type == ASTType.BodyAggregate]
+    assigned = set()
+    for lit in lits:
+        if int(lit.atom.function) in (3, 4):
+            for g in (lit.atom.left_guard, lit.atom.right_guard):
+                if g is not None and int(g.comparison) == 5 and g.term.ast_type == ASTType.Variable:
+                    assigned.add(g.term.name)
+    for lit in lits:
+        if str(lit) in before or int(lit.atom.function) not in (1, 2):
+            continue
+        for elem in lit.atom.elements:
+            if elem.terms and set(astutil.variables_in(elem.terms[0])) & assigned:
+                return True
+    return False
+
+
 def math_uses_minmax_result(case: dict, failure: dict) -> bool:
     """F-math-minmax: a variable assigned by a #min/#max aggregate (it may be #inf/#sup or a non-integer) occurs in a
     literal that the math step removed or rewrote, while the #min/#max aggregate itself is kept verbatim"""
+    if _minmax_value_became_weight(case, failure):
+        return True
     assigned = set()
     after = {str(b) for b in _body_lits(_after(case, failure))}
     for lit in _body_lits(_before(case, failure)):
